@@ -1,11 +1,24 @@
 //@@INCLUDE _shared/header.rs
+//@@INCLUDE _shared/diagn_opaque.rs
 pub mod util {
     use vstd::prelude::*;
     use crate::*;
     verus! {
-    pub trait FileServer {}
+    /// the part of the FileServer trait the driver uses. ASSUMED contract of write_bytes (std::fs / the mock): a successful
+    /// write is recorded (ghost log `written`: file name and bytes, in order) and raises no diagnostic, a failed one is
+    /// not recorded and raises one
+    pub trait FileServer {
+        spec fn written(&self) -> Seq<(Seq<char>, Seq<u8>)>;
+        fn write_bytes(&mut self, report: &mut diagn::Report, span: Option<diagn::Span>, filename: &str, data: &Vec<u8>) -> (r: Result<(), ()>)
+            ensures
+                r is Ok ==> final(self).written() == old(self).written().push((filename@, data@)) && *final(report) == *old(report),
+                r is Err ==> final(self).written() == old(self).written() && final(report).msgs() > old(report).msgs();
+    }
     #[verifier::external_body]
     pub struct BitVec { _p: u8 }
+    /// opaque stand-in (only returned by the stub BitVec::to_bigint, whose value is unspecified here)
+    #[verifier::external_body]
+    pub struct BigInt { _p: u8 }
     #[verifier::external_body]
     #[verifier::accept_recursive_types(T)]
     pub struct SymbolManager<T> { _p: core::marker::PhantomData<T> }
@@ -40,6 +53,11 @@ pub mod asm {
     #[verifier::external_body]
     pub struct ItemDefs { _p: u8 }
     pub struct ItemDecls { pub symbols: util::SymbolManager<Symbol> }
+    #[verifier::external_body]
+    pub struct AstTopLevel { _p: u8 }
+    #[verifier::external_body]
+    pub struct AssemblyOptions { _p: u8 }
+    //@@ITEMS asm
     }
 }
 pub mod driver {
@@ -75,6 +93,20 @@ pub mod driver {
             OutputFormat::SymbolsMesenMlb => utf8_bytes(text_mesen(syms)),
         }
     }
+    // ---- C18 / C03: what one run of the driver writes
+    /// the files the first n output groups ask for: one per group that names a format and a file and is not printed
+    pub open spec fn group_files(groups: Seq<CommandOutput>, n: int, o: BitVec, syms: SymbolManager<asm::Symbol>) -> Seq<(Seq<char>, Seq<u8>)> decreases n {
+        if n <= 0 { Seq::empty() } else {
+            let g = groups[n - 1];
+            if g.format is Some && !g.printout && g.output_filename is Some { group_files(groups, n - 1, o, syms).push(((g.output_filename->0)@, rendering(o, syms, g.format->0))) }
+            else { group_files(groups, n - 1, o, syms) }
+        }
+    }
+    /// R16 helpers: console output (no effect on any contract); `OPTION.as_ref().ok_or(())` / `OPTION.as_ref().unwrap()`
+    #[verifier::external_body]
+    pub fn verif_println() { }
+    pub fn verif_some_or_err<T>(o: &Option<T>) -> (r: Result<&T, ()>) ensures (match r { Ok(x) => *o == Some(*x), Err(_) => *o is None }) { match o { Some(x) => Ok(x), None => Err(()) } }
+    pub fn verif_some_ref<T>(o: &Option<T>) -> (r: &T) requires *o is Some ensures *o == Some(*r) { match o { Some(x) => x, None => { proof { assert(false); } loop decreases 0int {} } } }
     //@@ITEMS driver
     }
 }
